@@ -57,6 +57,8 @@ func zzvC11Configs(thorough bool) map[string]*telemetry.UploadConfig {
 		"two-os":      mk([]string{"linux", "darwin"}, []string{"amd64", "arm64"}, []string{"go1.21.0", "go1.22.0"}, p1([]string{"c"}, []string{"s", "c"}), p2),
 		"no-stacks":   mk([]string{"linux"}, []string{"amd64"}, []string{"go1.21.0"}, p1([]string{"c:{a}", "s"}, nil)),
 		"no-programs": mk([]string{"linux"}, []string{"amd64"}, []string{"go1.21.0"}),
+		// a name configured as the other kind than the data's: stack "u" vs counter u, counter "v" vs stack v
+		"kinds-crossed": mk([]string{"linux"}, []string{"amd64"}, []string{"go1.21.0"}, p1([]string{"c", "v"}, []string{"s", "u"})),
 	}
 	if thorough {
 		out["empty-os-lists"] = mk(nil, nil, []string{"go1.21.0"}, p1([]string{"c"}, []string{"s"}))
@@ -84,7 +86,7 @@ func zzvC11Builds() map[string]ref.Build {
 // per prefix, coarser than the uploader's per-bucket verdict, so only "sent => flagged present" is required.
 var zzvC11Bucketed = map[string]bool{"c": true, "d": true, "f": true}
 
-var zzvC11Names = []string{"c", "c:a", "d:a", "d:c", "d", "zz", "e", "f:x", "s", "s\nmain.f:+1,+0x1", "t\nmain.f:+1,+0x1", "c\nmain.f:+1,+0x1", "s\nmain.g:+2,+0x2\nmain.f:+1,+0x1"}
+var zzvC11Names = []string{"u", "v\nmain.f:+1,+0x1", "c", "c:a", "d:a", "d:c", "d", "zz", "e", "f:x", "s", "s\nmain.f:+1,+0x1", "t\nmain.f:+1,+0x1", "c\nmain.f:+1,+0x1", "s\nmain.g:+2,+0x2\nmain.f:+1,+0x1"}
 
 func TestVerifC11View(t *testing.T) {
 	p := vrep.Env()
